@@ -1,4 +1,4 @@
-CONSTANTS Ns = {1,2,3,5,8,13,20,21,22,34,55}  Pats = {1,2,3,4,5,6,7,8}  Engines = {"forward"}
+CONSTANTS Ns = {1,2,3,5,8,13,20,21,22,34,55,64,65,70,130}  Pats = {1,2,3,4,5,6,7,8}  Engines = {"forward"}
 INIT Init
 NEXT Next
 VIEW View
